@@ -19,6 +19,7 @@ fn main() -> ExitCode {
         "C02" => rosu_verif::c02::run(tier, seed, only),
         "C14" => rosu_verif::c14::run(tier, seed, only),
         "C15" => rosu_verif::c15::run(tier, seed, only),
+        "C18" => rosu_verif::c18::run(tier, seed, only),
         _ => {
             eprintln!("unknown property {prop}");
             return ExitCode::from(2);
